@@ -86,10 +86,17 @@ CHECK_DEADLOCK FALSE
 """ % ("TRUE" if esc else "FALSE")
 
 
-SVC_INVS = "INVARIANTS TypeOK CacheTransparent RequestExact ResolvedExistsNow MostSpecificNow PayloadNow"
+SVC_INVS = "INVARIANTS TypeOK CacheTransparent RequestExact ResolvedExistsNow MostSpecificNow FaultNeverInventsEntry PayloadNow"
+ALL_FAULTS = [[i + 1 for i in range(4) if m >> i & 1] for m in range(16)]
 
 
-def cfg_svc(esc, maxsteps, varids, updids, require=True, gen=False, invs=True, focus=None, storeinit=(0, 1), editvals=(0, 1, 2)):
+def fsets(fs):
+    return "{" + ", ".join("{" + ", ".join(map(str, f)) + "}" for f in fs) + "}"
+
+
+
+def cfg_svc(esc, maxsteps, varids, updids, require=True, gen=False, invs=True, focus=None, storeinit=(0, 1), editvals=(0, 1, 2),
+            backends=("file", "consul"), faults=ALL_FAULTS):
     return """SPECIFICATION %s
 CONSTANTS
   AutoEscape = %s
@@ -100,11 +107,13 @@ CONSTANTS
   ExistsRefreshes = TRUE
   StoreInit = {%s}
   EditVals = {%s}
+  Backends = %s
+  FaultSets = %s
 %s
 %s
 CHECK_DEADLOCK FALSE
 """ % ("GenSpec" if gen else "Spec", "TRUE" if esc else "FALSE", maxsteps, ", ".join(map(str, varids)), ", ".join(map(str, updids)),
-       "TRUE" if require else "FALSE", ", ".join(map(str, storeinit)), ", ".join(map(str, editvals)),
+       "TRUE" if require else "FALSE", ", ".join(map(str, storeinit)), ", ".join(map(str, editvals)), tset(backends), fsets(faults),
        ('  Focus = "%s"' % focus) if gen else "", SVC_INVS if invs else "")
 
 
@@ -119,9 +128,11 @@ CONSTANTS
   ExistsRefreshes = TRUE
   StoreInit = {0}
   EditVals = {0, 1, 2}
+  Backends = {"file"}
+  FaultSets = %s
 INVARIANT PrintEnd
 CHECK_DEADLOCK FALSE
-""" % ("TRUE" if esc else "FALSE")
+""" % ("TRUE" if esc else "FALSE", fsets(ALL_FAULTS))
 
 
 def beh_to_scenario(sid, beh, origin="simulate"):
@@ -134,12 +145,15 @@ def beh_to_scenario(sid, beh, origin="simulate"):
             step["e"] = r["e"]
         if r["op"] == "ExternalEdit":
             step["v"] = st["store"][r["e"]]
+        if r["op"] in ("Resolve", "GetX"):
+            step["f"] = sorted(r["f"])
         if r["op"] == "Process":
             step["vars"] = r["vars"]
         if r["op"] == "Update":
             step["parts"] = r["parts"]
         steps.append(step)
-    return {"id": sid, "origin": origin, "content": from_tla(beh[0][2]["content"]), "store": from_tla(beh[0][2]["store"]),
+    return {"id": sid, "origin": origin, "backend": beh[0][2]["backend"], "content": from_tla(beh[0][2]["content"]),
+            "store": from_tla(beh[0][2]["store"]),
             "steps": steps}
 
 
@@ -218,7 +232,11 @@ def run(ctx):
         "request (a processed request while an update is pending invalidation is recorded and modelled, but not judged)",
         "the backing store is the FILE backend; an external writer replaces the whole file between two requests (never during "
         "one); the four candidates c/{PHYSICS,ANY}/{r,any}/x are added / replaced / removed; the Consul backend keeps no "
-        "copy of the store (every Exists/Get is a KV read) and is not driven",
+        "copy of the store (every Exists/Get is a KV read); on harness/fakeconsul the external write is a direct KV put/delete",
+        "backend faults hit existence checks only, between well-defined requests: file backend = the file is unparseable for the "
+        "whole request (every check fails), Consul backend = the i-th KV GET of the request is answered HTTP 500 for i in a "
+        "scripted set; the store content itself is not changed by a fault; under faults only 'fails or names an existing entry' "
+        "is claimed, not 'most specific'",
     ]
     ctx.rule = ("case = one input (query string / parameter string / query+backend / template+variables) enumerated by TLC from "
                 "spec/ConfigQueryGen.tla (exhaustive within bounds) or spec/ConfigQueryEdit.tla (tlc -simulate, seeded); every case "
@@ -236,7 +254,8 @@ def run(ctx):
             ("rnd", cfg_gen(esc, ["rnd"], INV_RND, rndmaxparts=2)),      # stops at a counterexample when AutoEscape
         ]
         nsim, nsimjobs, depth, maxedits, maxseg = 300, 1, 30, 2, 3
-        svc_models = [("svc-model", cfg_svc(esc, 3, [3, 4], [1], storeinit=[0], editvals=[0, 1, 2]))]
+        svc_models = [("svc-model", cfg_svc(esc, 3, [3], [1], storeinit=[0], editvals=[0, 1],
+                                            faults=[[], [1], [2, 3], [1, 2, 3, 4]]))]
         svc_nsim, svc_steps = 400, 9
     else:
         jobs = [
@@ -253,9 +272,10 @@ def run(ctx):
         for f in ("a", "X", "_"):
             jobs.append(("str-catalogue-" + f, cfg_gen(esc, ["str"], INV_STR, qsegmax=2, qfirst=[f])))
         nsim, nsimjobs, depth, maxedits, maxseg = 1250, 2, 40, 3, 4
-        svc_models = [("svc-model-render", cfg_svc(esc, 5, [1, 2, 3, 4, 5, 8], [1, 2, 4], storeinit=[0], editvals=[])),
-                      ("svc-model-store", cfg_svc(esc, 5, [], [], storeinit=[0, 1], editvals=[0, 1, 2]))]
-        svc_nsim, svc_steps = 4000, 14
+        svc_models = [("svc-model-render", cfg_svc(esc, 5, [1, 2, 3, 4, 5, 8], [1, 2, 4], storeinit=[0], editvals=[],
+                                                   backends=["file"], faults=[[]])),
+                      ("svc-model-store", cfg_svc(esc, 3, [], [], storeinit=[0, 1], editvals=[0, 1, 2]))]
+        svc_nsim, svc_steps = 2500, 14
 
     simjobs = [("simulate-%d" % i, cfg_edit(esc, maxedits, maxseg)) for i in range(1, nsimjobs + 1)]
     svcjobs = [("svc-simulate", cfg_svc(esc, svc_steps, range(1, 10), range(1, 5), gen=True, invs=True, focus="mixed"))] + svc_models
@@ -524,6 +544,13 @@ def execute(ctx, esc, cases, origin, nproc, predicted=(), scenarios=(), spredict
                                     "InvalidateComponentTemplateCache (then %r); GetComponentConfiguration returned the new content "
                                     "at once - the import path does not invalidate the cache (documented protocol assumed by the model)"
                                     % (o.get("afterimport"), o.get("afterinvalidate")))
+    for o in slines:
+        if o.get("ev") == "Corner" and o.get("name") == "resolution-with-one-failed-existence-check" and not o.get("failed") \
+                and o.get("resolved") not in ("", o.get("query")):
+            ctx.observations.append("backend fault: when the existence check of the exact, existing entry %s is answered HTTP 500, "
+                                    "ResolveComponentQuery silently resolves to the less specific %s (queryToAbsPath drops the error "
+                                    "of src.Exists); it never names a non-existing path, which is what is claimed under faults"
+                                    % (o.get("query"), o.get("resolved")))
     ctx.extra["request_sequences"] = {"sequences": len(scenarios), "requests": sum(len(x["steps"]) for x in scenarios),
                                       "trace_lines": len(slines)}
     if scenarios:
